@@ -140,7 +140,7 @@ func runCase(c Case) (*ev.Failure, bool) {
 		defer runtime.GOMAXPROCS(runtime.GOMAXPROCS(c.Procs))
 	}
 	if c.Verbose {
-		glue.SetKlogVerbosity(5)
+		glue.SetKlogVerbosity(10)
 		defer glue.SetKlogVerbosity(0)
 	}
 	fl := flows()
